@@ -484,6 +484,7 @@ func init() {
 		for _, n := range []string{"OpReceive", "OpSend", "OpSelect", "OpRange"} {
 			fmt.Fprintf(b, "Definition op_%s : N := %d.\n", n, vmConstInt(rt, n))
 		}
+		fmt.Fprintf(b, "(* in Program.Run and Template.Run of the root package, every call of vm.AllowGoroutines() comes after the\n   call of vm.SetContext (the failure signal of goroutines derives from the context set before it; seeded C12-g) *)\nDefinition goroutines_after_context : bool := %s.\n\n", coqBool(allowAfterContext(w.pkg(""))))
 		tail := runFuncTail(rt)
 		fmt.Fprintf(b, "\n(* what runFunc returns when its loop has been left by break, evaluated from the statements that follow\n   the loop for every value of: a context with a Done channel was set (stop != nil), env.done == 1,\n   vm.panic != nil; 0 nil, 1 the error of the context, 2 vm.panic;\n")
 		fmt.Fprintf(b, "   with a fourth condition, vm.env.failed() != nil (a goroutine started by a go statement ended with an error):\n   3 the error of that goroutine *)\n")
@@ -871,4 +872,43 @@ func init() {
 		fmt.Fprintf(b, "(* entries of checks/C10_writes.json without a site in the code: %s *)\nDefinition stale_write_entries : N := %d.\n", strings.ReplaceAll(fmt.Sprint(stale), "*)", "* )"), len(stale))
 		return nil
 	})
+}
+
+// allowAfterContext reports whether, in the methods Run of Program and
+// Template, vm.AllowGoroutines is called, and only after the last call of
+// vm.SetContext in source order.
+func allowAfterContext(p *packages.Package) bool {
+	ok := true
+	found := 0
+	for _, recv := range []string{"Program", "Template"} {
+		fd := findMethod(p, recv, "Run")
+		if fd == nil {
+			return false
+		}
+		var lastSet, firstAllow token.Pos
+		ast.Inspect(fd.Body, func(n ast.Node) bool {
+			if c, isCall := n.(*ast.CallExpr); isCall {
+				switch exprString(c.Fun) {
+				case "vm.SetContext":
+					if c.Pos() > lastSet {
+						lastSet = c.Pos()
+					}
+				case "vm.AllowGoroutines":
+					if firstAllow == 0 || c.Pos() < firstAllow {
+						firstAllow = c.Pos()
+					}
+				}
+			}
+			return true
+		})
+		if firstAllow == 0 {
+			ok = false
+		} else {
+			found++
+			if lastSet != 0 && firstAllow < lastSet {
+				ok = false
+			}
+		}
+	}
+	return ok && found == 2
 }
